@@ -7,6 +7,7 @@ import (
 	"fmt"
 	"testing"
 
+	"github.com/ipfs/go-cid"
 	"github.com/ipfs/go-unixfsnode"
 	dagpb "github.com/ipld/go-codec-dagpb"
 	"github.com/ipld/go-ipld-prime"
@@ -134,7 +135,7 @@ func c14OneNode(t *rapid.T, st *Store, ls *ipld.LinkSystem, ev *Evid) *c14Kept {
 				case 0:
 					u.Fanout = u64p(rapid.SampledFrom([]uint64{0, 1, 2, 4, 3, 7, 24, 100}).Draw(t, "badfan"))
 				case 1:
-					u.Fanout = u64p(rapid.SampledFrom([]uint64{2048, 1 << 20, 1 << 63}).Draw(t, "bigfan"))
+					u.Fanout = u64p(rapid.SampledFrom([]uint64{2048, 1 << 20, 1 << 63, 1<<32 | 256, 1<<32 | 8, 3<<32 | 1024, 1<<40 | 16, 1<<63 | 256}).Draw(t, "bigfan"))
 				case 2:
 					u.Fanout = nil
 				case 3:
@@ -272,4 +273,88 @@ func TestC14_R_F7_WrappedSubstrate(t *testing.T) {
 			}
 		}
 	}
+}
+
+const c14RetryRule = "case = multi-block file or sharded directory node; preload-reify it on one link system while a drawn child block is unavailable (must fail), make the block available again and preload-reify the SAME node value again, then lazily; " +
+	"oracle = every reification returns either an error or a proper node of the right kind whose substrate is the original - never (nil, nil), never a node left half-loaded that reports success; every case non-trivial; distinct by (kind, blocks, fault position)"
+
+// TestC14_P_ReifyAfterFailedReify: reification is total also right after a reification that failed.
+func TestC14_P_ReifyAfterFailedReify(t *testing.T) {
+	ev := newEvid(t, c14RetryRule)
+	rapid.Check(t, func(t *rapid.T) {
+		st := NewStore()
+		var root cid.Cid
+		var blocks []cid.Cid
+		kind := rapid.SampledFrom([]string{"file", "hamt"}).Draw(t, "kind")
+		wantKind := datamodel.Kind_Bytes
+		if kind == "file" {
+			fc := genFileDAG(t, 4, 120)
+			if len(fc.Tree.All()) < 2 {
+				return
+			}
+			st, root, blocks = fc.St, fc.Root, fc.Tree.PreOrder()[1:]
+		} else {
+			wantKind = datamodel.Kind_Map
+			p := collisions.Pairs[rapid.IntRange(0, len(collisions.Pairs)-1).Draw(t, "pair")]
+			es := []entrySpec{entryFor(p[0], 0), entryFor(p[1], 0), entryFor("x", 0), entryFor("y", 0)}
+			var err error
+			root, _, err = buildSharded(st, es, rapid.SampledFrom([]int{8, 16, 256}).Draw(t, "fanout"))
+			if err != nil {
+				t.Fatal(err)
+			}
+			tr, _ := st.ShardTree(root)
+			blocks = tr.ShardsPreOrder()
+		}
+		ls := st.LinkSystem()
+		pn, err := loadPlain(ls, root)
+		if err != nil {
+			t.Fatal(err)
+		}
+		orig, _ := st.Get(root)
+		missing := blocks[rapid.IntRange(0, len(blocks)-1).Draw(t, "missing")]
+		st.Missing = map[cid.Cid]bool{missing: true}
+		var rn datamodel.Node
+		must(t, "preload with a missing block", func() { rn, err = ls.KnownReifiers["unixfs-preload"](lc0, pn, ls) })
+		if err == nil {
+			t.Fatalf("C14: preload-reification with block %s unavailable returned %T without error", missing, rn)
+		}
+		st.Missing = map[cid.Cid]bool{}
+		for _, r := range []string{"unixfs-preload", "unixfs", "unixfs-preload"} {
+			must(t, "reify again ("+r+")", func() { rn, err = ls.KnownReifiers[r](lc0, pn, ls) })
+			if err != nil {
+				t.Fatalf("C14: %s of the same node after the block came back failed: %v", r, err)
+			}
+			if rn == nil {
+				t.Fatalf("C14: %s of the same node after a failed preload returned (nil, nil)", r)
+			}
+			if rn.Kind() != wantKind {
+				t.Fatalf("C14: %s after a failed preload returned kind %s, want %s", r, rn.Kind(), wantKind)
+			}
+			var buf bytes.Buffer
+			if e := dagpb.Encode(rn.(adl.ADL).Substrate(), &buf); e != nil || !bytes.Equal(buf.Bytes(), orig) {
+				t.Fatalf("C14: %s after a failed preload: substrate does not re-encode to the original block (%v)", r, e)
+			}
+			var uerr error
+			must(t, "use the node", func() {
+				if wantKind == datamodel.Kind_Bytes {
+					_, uerr = rn.AsBytes()
+				} else {
+					for it := rn.MapIterator(); !it.Done(); {
+						if _, _, e := it.Next(); e != nil {
+							uerr = e
+							return
+						}
+					}
+					if rn.Length() != 4 {
+						uerr = fmt.Errorf("Length() = %d, want 4", rn.Length())
+					}
+				}
+			})
+			if uerr != nil {
+				t.Fatalf("C14: node from %s after a failed preload is not usable: %v", r, uerr)
+			}
+		}
+		ev.Case(fmt.Sprintf("%s b=%s", kind, bucket(len(blocks))), true, "kind:"+kind)
+		ev.Sample(map[string]any{"kind": kind, "blocks_below_root": len(blocks)})
+	})
 }
